@@ -287,6 +287,61 @@ func cmdCheck(args []string) int {
 			}
 		}
 	}
+	// `extern-callers NAME... : FN...`: only the listed functions of the module call the named functions of
+	// other modules (full names such as os.Rename), K5, from a call-site scan over the PACKAGE of the function that carries the clause
+	for _, c := range units {
+		for _, cl := range c.get("extern-callers") {
+			if !hasProp(cl.Props, id) {
+				continue
+			}
+			names := map[string]bool{}
+			allowed := map[string]bool{}
+			seenSep := false
+			for _, a := range cl.Args {
+				switch {
+				case a == ":":
+					seenSep = true
+				case seenSep:
+					allowed[a] = true
+				default:
+					names[a] = true
+				}
+			}
+			if !seenSep || len(names) == 0 {
+				rep.add(&OblResult{Name: c.Key + "#extern-callers", Kind: "K5", Status: "failed", Text: "SPEC ERROR: extern-callers NAME... : FN...", Props: cl.Props})
+				continue
+			}
+			type hit struct{ callee, caller string }
+			found := map[hit]*ssa.Function{}
+			for fn := range P.allFuncs {
+				if !inFalco(fn) || fn.Blocks == nil || fn.Pkg == nil || fn.Pkg.Pkg.Path() != c.Pkg {
+					continue // (the scan is about the package of the function that carries the clause)
+				}
+				for _, b := range fn.Blocks {
+					for _, ins := range b.Instrs {
+						var ops []*ssa.Value
+						for _, op := range ins.Operands(ops) {
+							if op == nil || *op == nil {
+								continue
+							}
+							if f, ok := (*op).(*ssa.Function); ok && names[f.String()] {
+								found[hit{f.String(), fn.Name()}] = fn
+							}
+						}
+					}
+				}
+			}
+			rep.add(&OblResult{Name: fmt.Sprintf("%s#extern-callers:%s", c.Key, strings.Join(cl.Args, " ")), Kind: "K5", Status: "unsat", Backend: "call-site scan (no solver)",
+				Text: fmt.Sprintf("scan ran: %d using functions found", len(found)), Props: cl.Props, Fn: c.Key})
+			for h, fn := range found {
+				if allowed[h.caller] {
+					continue
+				}
+				rep.add(&OblResult{Name: fmt.Sprintf("%s#extern-callers:%s", h.callee, shortFn(fn)), Kind: "K5", Status: "failed", Backend: "call-site scan (no solver)",
+					Text: "only " + strings.Join(cl.Args, " ") + " (" + shortFn(fn) + " uses " + h.callee + ")", Props: cl.Props, Fn: shortFn(fn)})
+			}
+		}
+	}
 	// `only-writers KEY... : FN...`: only the listed functions contain an instruction that writes a heap
 	// array whose key contains one of the KEYs (K5, from the direct write-site scan)
 	for _, c := range units {
@@ -339,7 +394,17 @@ func cmdCheck(args []string) int {
 				}
 				nfound++
 				stt := "unsat"
-				if !allowed[fn.Name()] {
+				ok := allowed[fn.Name()]
+				for a := range allowed {
+					// `name*`: the function and its closures; `pkg:rel/path`: every function of that package
+					if strings.HasSuffix(a, "*") && strings.HasPrefix(fn.Name(), strings.TrimSuffix(a, "*")) {
+						ok = true
+					}
+					if strings.HasPrefix(a, "pkg:") && fn.Pkg != nil && fn.Pkg.Pkg.Path() == falcoMod+"/"+strings.TrimPrefix(a, "pkg:") {
+						ok = true
+					}
+				}
+				if !ok {
 					stt = "failed"
 				}
 				rep.add(&OblResult{Name: fmt.Sprintf("%s#only-writers:%s", strings.Join(keys, ","), shortFn(fn)), Kind: "K5", Status: stt, Backend: "write-site scan (no solver)",
